@@ -45,7 +45,7 @@ impl Parser {
         if !value_ty.is_boolean() {
             return Err(vec![new_err(
                 value_span,
-                &input.user_data().get_file_name(),
+                &input.user_data().get_source_file_name(),
                 format!("assert expects a `bool` value, but `{value_ty}` was supplied"),
             )]);
         }
